@@ -26,6 +26,8 @@ type buildOut struct {
 	coding int
 	isErr  bool
 	panic  string
+	// Build called twice on one builder gave two answers
+	secondDiffers bool
 }
 
 func callBuild(proto string, content string, cands []int, origin int, hasOrigin bool, ref byte) buildOut {
@@ -49,6 +51,11 @@ func callBuild(proto string, content string, cands []int, origin int, hasOrigin 
 			b = b.OriginDataCoding(mkCoding(proto, origin))
 		}
 		parts, actual, err := b.Build(context.Background())
+		// the same builder asked again: a builder is a description of the request, building must not use it up
+		parts2, actual2, err2 := b.Build(context.Background())
+		if (err == nil) != (err2 == nil) || (err == nil && (fmt.Sprint(actual) != fmt.Sprint(actual2) || renderParts(parts) != renderParts(parts2))) {
+			out.secondDiffers = true
+		}
 		out.parts, out.isErr = parts, err != nil
 		out.coding = -1
 		if err == nil && actual != nil {
@@ -191,6 +198,10 @@ func runC09(res *Result, d *Driver, g *Rng, tier string) {
 							ops, goOut = append(ops, op), append(goOut, got)
 						}
 						rp := []string{op, fmt.Sprintf("build %s cands=%v origin=%d/%v content=%s", proto, sh, or.n, or.has, cpsOf(content))}
+						if out.secondDiffers {
+							res.Violate("C09.not-deterministic:"+proto, "Build called a second time on the same builder gives another result", rp)
+							break
+						}
 						if got != want {
 							res.Violate("C09.not-cheapest:"+proto, fmt.Sprintf("candidates %v origin %d/%v, %d-rune content: got %q, cheapest usable is %q", sh, or.n, or.has, len([]rune(content)), got, want), rp)
 							break
